@@ -57,8 +57,8 @@ CHECKS = {
  "C14": dict(
   technique="source-level symbolic execution (S-kernel) of info::DocumentOrder and the HasContext order methods with symbolic ids, anchor, version and caches + SMT (z3 BV64); one inductive step from an arbitrary valid vector; counterexamples replayed on the compiled DocumentOrder through the `verif` hook",
   category="model_checking",
-  text="From ANY valid order vector of k <= 2 (quick) / 3 (thorough) attached items with symbolic pairwise-distinct non-zero ids, one detached item, any version and any caches allowed by the cache invariant, one call of set_order_after / set_order_before (symbolic anchor id, any item as mover), clear_order or init_order is executed symbolically through DocumentOrder::{get, insert_after, insert_before, push, remove} and order(). z3 decides on every path that the keys reported afterwards are exactly 1..n in the specified sequence (non-zero, pairwise distinct, strictly increasing along it), that a failing call changes no key, and that the cache invariant holds again - so histories of any length are covered for the vector kernel within k. The same step is decided through the dispatch table of every XmlItem variant (84 obligations), and the interpreter is validated against the compiled DocumentOrder on concrete steps each run.",
-  note="Partial: which anchor the tree mutators pick (append / insert_before / attributes / subtree moves), hence the pre-order relation over the tree and query(edited) = query(re-parsed), need the item graph and are outside. Weak::upgrade is assumed to succeed.",
+  text="From ANY valid order vector of k <= 2 (quick) / 3 (thorough) attached items with symbolic pairwise-distinct non-zero ids, one detached item, any version and any caches allowed by the cache invariant, one call of set_order_after / set_order_before (symbolic anchor id, any item as mover), clear_order or init_order is executed symbolically through DocumentOrder::{get, insert_after, insert_before, push, remove} and order(). z3 decides on every path that the keys reported afterwards are exactly 1..n in the specified sequence (non-zero, pairwise distinct, strictly increasing along it), that a failing call changes no key, and that the cache invariant holds again - so histories of any length are covered for the vector kernel within k. The same step is decided through the dispatch table of every XmlItem variant (84 obligations), and the interpreter is validated against the compiled DocumentOrder on concrete steps each run. Tree step: for the bounded trees and child mutators listed under C12/C13 (new nodes, subtrees, moves of children and grandchildren, failing calls) z3 decides that after the call the keys of all attached nodes are non-zero and strictly increasing along the pre-order walk of the tree as it then is.",
+  note="Partial: attributes and attribute values in the walk, document-level edits and query(edited) = query(re-parsed) over whole documents are outside. Weak::upgrade is assumed to succeed.",
   design="4/C14", engine="S-kernel"),
  "C15": dict(
   technique="source-level symbolic execution (S-kernel) of the DOM character-data mutators and name factories, with the validate-by-reparse checks executed through the S-grammar encoding of the real nom productions + SMT (z3); one inductive step from an arbitrary state of the capture-language invariant; counterexamples replayed through the DOM API with print + re-parse",
@@ -90,13 +90,23 @@ CHECKS = {
   text="Node-set kernel: over a pool of 3 nodes whose order keys are symbolic, pairwise distinct, non-zero 64-bit values, z3 decides for every shape in the bounds that (union) the union of 1-3 document-ordered duplicate-free operand lists holds exactly the operands' nodes, each once, in strictly increasing key order - so A|B = B|A, A|A = A, count(A|B) <= count(A)+count(B); (paths) eval_filtered_loc_expr returns the step results of 1-2/3 context nodes (any order, duplicates) in non-decreasing key order with the same nodes; (filter) (E)[position()=t] selects the t-th node of the primary's list for any 64-bit t, i.e. positional filters on a parenthesised node-set count in the order `union` established.",
   note="Partial: which nodes an axis or node test selects is C05 (not applicable); that order keys follow document order is C14, that every node kind reports its key is C06.s.siblings. Sub-evaluators and XmlNode::order are stubs (listed in the evidence). Pool of 3 nodes, operand lists <= 2/3 nodes.",
   design="4/C07", engine="S-kernel"),
+ "C12": dict(
+  technique="source-level symbolic execution (S-kernel, with RefCell borrow tracking) of the DOM child mutators over a bounded piece of the item graph with symbolic ids + SMT (z3); one inductive step from an arbitrary valid state; counterexamples replayed through the DOM API",
+  category="model_checking",
+  text="Link invariant: every node listed in a child list reports that list's owner as its parent, no node is listed twice, a removed or replaced node has no parent. From ANY state document -> G -> P -> k children (k <= 2 quick / 3 thorough, Element/Text/Comment, optionally one grandchild; symbolic pairwise-distinct ids) one call of append_child / insert_before / replace_child / remove_child on P - argument a new node (element, element with a child, text, comment, attribute), a child, the grandchild, P itself, its ancestor or a foreign node; reference none, a child or a stranger - is executed from source down to the child vectors, parent ids and the order vector, and z3 decides on every returning path, success or failure, that the invariant holds again (so it is inductive within the shapes). That next_sibling / previous_sibling agree with the child list is decided under C06.s.siblings.",
+  note="Partial: first_child/last_child, document-level invariants (one document element, one doctype), attribute lists, deeper trees and histories that grow beyond the shape bound are outside. owner_document and Context::node are stubs.",
+  design="4/C12", engine="S-kernel"),
+ "C13": dict(
+  technique="source-level symbolic execution (S-kernel, with RefCell borrow tracking) of dom XmlElement::{insert_before, remove_child} and the NodeMut defaults append_child / replace_child over a bounded piece of the item graph with symbolic ids + SMT (z3); counterexamples replayed through the DOM API (real document, real mutator, child list / parent links / sibling links / //node() order afterwards)",
+  category="model_checking",
+  text="For every state document -> G -> P -> k children (k <= 2 quick / 3 thorough) and every argument/reference choice listed under C12, z3 decides on every path: the outcome is the DOM Level 1 one (WrongDocumentErr for a foreign node, HierarchyRequestErr for P itself, an ancestor or an attribute, NotFoundErr for a reference that is not a child - any of the applicable ones when several apply - otherwise success), after a success the child lists and parent links are exactly the specified ones (a node already in the tree is moved) and the specified node is returned, NO path panics - a RefCell double borrow is a panic path, guards are tracked with statement/`let` lifetimes - and a failing call changes no child list and no parent link and leaves the attached nodes in the same key order. The character-data mutators are C16 (effect) and C15 (validation).",
+  note="Partial: attribute mutators, NamedNodeMap, the create_* factories (C15 covers their validation), document / fragment / attribute receivers, the merged-text view (TryFrom for ExpandedText is unimplemented!) and deeper trees are outside. insert_before(x, x) / replace_child(x, x) are left to the implementation by DOM Level 1 and skipped. owner_document and Context::node are stubs.",
+  design="4/C13", engine="S-kernel"),
 }
 
 NA = {
  "C05": "needs xml_xpath::query to run on a live document: the evaluator walks the Rc<RefCell<..>> item graph behind a HashMap id table, which neither engine can encode for arbitrary documents (Kani could not build a two-element document in 25 min; the S-kernel holds one parent with its children, not trees of arbitrary depth). The scalar half of the evaluator is decided under C09, the expression grammar under C08, node-set order / de-duplication under C07, steps that select nothing and sibling navigation under C06.",
  "C10": "namespace scoping (in_scope_namespace, find_nameapce_uri, as_expanded_name) recurses over parent links of the item graph; only the grammar's recognition of xmlns / xmlns:p attribute names is within reach and is decided inside C01/C02.",
- "C12": "the state is the whole heap graph (child vectors, parent_id, id_map of Rc/Weak items at every depth) under arbitrary mutator histories; the S-kernel can hold one parent with its children (used for split_text under C16 and sibling navigation under C06) but no invariant over trees of arbitrary depth, and bounded histories from a concrete state would be enumeration, not a solver verdict.",
- "C13": "same state as C12 for every tree mutator. The character-data mutators' semantics are decided under C16, their validation under C15; the panicking factories are a known finding of C15.",
  "C17": "whole-program runs of the xe/xq binaries over process I/O, composing parser, evaluator, DOM mutation and printer: outside bounded symbolic execution of the code by either engine.",
 }
 DEFAULT_NA = "check not built yet (construction in progress)"
@@ -108,7 +118,7 @@ m = {
            "baseline_off_cmd": "cd /repo && cargo test --workspace --no-fail-fast --offline", "source_commits": ["1af260d"], "add_only": True},
  "engines": [
   {"name": "S-grammar", "path": "engine/sx/nomsem.py", "serves_properties": ["C01", "C02", "C03", "C06", "C08", "C18"], "kind_free_text": "symbolic executor for the nom grammars read from /repo via engine/srcdump (syn); z3 QF_BV"},
-  {"name": "S-kernel", "path": "engine/sx/kernel.py", "serves_properties": ["C01", "C04", "C06", "C07", "C09", "C11", "C14", "C15", "C16", "C19"], "kind_free_text": "path-enumerating symbolic interpreter for small Rust functions read from the syn dump (engine/sx/kstd.py = std models); z3"},
+  {"name": "S-kernel", "path": "engine/sx/kernel.py", "serves_properties": ["C01", "C04", "C06", "C07", "C09", "C11", "C12", "C13", "C14", "C15", "C16", "C19"], "kind_free_text": "path-enumerating symbolic interpreter for small Rust functions read from the syn dump (engine/sx/kstd.py = std models); z3"},
   {"name": "Kani", "path": "kani/", "serves_properties": ["C18"], "kind_free_text": "Kani 0.68 / CBMC 6.11 harness crate with path dependencies on /repo crates"},
   {"name": "replay", "path": "replay/", "serves_properties": ["C01", "C02"], "kind_free_text": "Rust driver with path dependencies on /repo crates: replays solver models and validates the translator"},
  ],
